@@ -1288,7 +1288,10 @@ func rulesC15(r *Run) {
 
 	r.Kind("R4", "K8")
 	ruleListQuery(r, "R4", m)
-	r.Expect("R4", 2)
+	for _, k := range []string{sqlKey("reader.Search"), sqlKey("reader.List")} {
+		ruleOneStatementPerStream(r, "R4", k)
+	}
+	r.Expect("R4", 4)
 
 	r.Kind("R5", "K7")
 	rulesCosmosSearch(r, "R5")
@@ -1954,4 +1957,62 @@ func ruleExistsAnswer(r *Run, rule string) {
 		}
 	}
 	r.Check(rule, "Exists:true-iff-row-count-positive", bpos, bad == "", "%s", orOK(bad, "true ⇔ count > 0"))
+}
+
+// ruleOneStatementPerStream (round-4 seed C15-7): "newest submission first" is decided by the ORDER BY of the statement (R2,
+// R4), so it holds for the stream only if the stream is fed by the rows of ONE statement execution. A producer that executes
+// the statement several times (one query per batch of ids, per status, per page of its own making) and pushes all rows onto
+// the same stream delivers runs that are each sorted but whose concatenation is not — and a row matching two executions
+// twice. On no path, and on no prefix cut at the loop bound, does the producer of Search/List execute more than one
+// row-producing statement.
+func ruleOneStatementPerStream(r *Run, rule, key string) {
+	fn := r.fnByKey(rule, key)
+	if fn == nil {
+		return
+	}
+	_, paths, ok := r.flowPaths(rule, fn)
+	if !ok {
+		return
+	}
+	var lit *ast.FuncLit
+	for i := range paths {
+		for _, e := range paths[i].Ev {
+			if IsCall(e, keySubmit) {
+				lit = LitArg(e.Call)
+			}
+		}
+	}
+	short := ShortFn(key)
+	if lit == nil {
+		r.Unresolved(rule, key+" feeds its stream from a submitted literal")
+		return
+	}
+	lf, lp, ok := r.litPaths(rule, lit)
+	if !ok {
+		return
+	}
+	bad := ""
+	var bpos token.Pos = lit.Pos()
+	most := 0
+	all := append(append([]Path{}, lp...), lf.Truncated()...)
+	for i := range all {
+		p := &all[i]
+		n := 0
+		for _, e := range p.Ev {
+			if e.Kind == EvCall && sqliteExecKeys[CalleeKey(e)] {
+				n++
+				if n == 2 && bad == "" {
+					bad, bpos = "the producer of "+short+"'s stream executes a row-producing statement more than once for one stream: each execution is ordered newest first, their concatenation is not, and a plan matching two of them is delivered twice", e.Pos
+				}
+			}
+		}
+		if n > most {
+			most = n
+		}
+	}
+	if most == 0 {
+		r.Unresolved(rule, "the statement the producer of "+short+" executes")
+		return
+	}
+	r.Check(rule, short+":one-statement-per-stream", bpos, bad == "", "%s", orOK(bad, "one statement execution feeds the stream"))
 }
